@@ -151,6 +151,36 @@ def in_range(v, ty):
     return (-(1 << (w - 1)) <= v < (1 << (w - 1))) if signed else (0 <= v < (1 << w))
 
 
+def _float_method(nm, x, args):
+    import math
+    if not isinstance(x, (int, float)) or isinstance(x, bool):
+        return NotImplemented
+    x = float(x)
+    if nm in ('cos', 'sin', 'sqrt', 'abs', 'floor', 'ceil', 'round', 'exp', 'ln', 'tan', 'atan') and not args:
+        if nm == 'sqrt' and x < 0:
+            return float('nan')
+        return {'cos': math.cos, 'sin': math.sin, 'sqrt': math.sqrt, 'abs': abs, 'floor': lambda v: float(math.floor(v)), 'ceil': lambda v: float(math.ceil(v)),
+                'round': lambda v: float(math.floor(abs(v) + 0.5)) * (1 if v >= 0 else -1), 'exp': math.exp, 'ln': math.log, 'tan': math.tan, 'atan': math.atan}[nm](x)
+    if nm == 'powi' and len(args) == 1:
+        return x ** args[0]
+    if nm == 'atan2' and len(args) == 1:
+        return math.atan2(x, args[0])
+    if nm == 'is_zero' and not args:
+        return x == 0.0
+    if nm in ('is_nan', 'is_finite', 'is_infinite') and not args:
+        return {'is_nan': math.isnan, 'is_finite': math.isfinite, 'is_infinite': math.isinf}[nm](x)
+    if nm == 'integer_decode' and not args:
+        if x == 0.0:
+            return (0, -1075, -1 if math.copysign(1.0, x) < 0 else 1)
+        if not math.isfinite(x):
+            raise NoEval('integer_decode of %r' % x)
+        m, e = math.frexp(abs(x))
+        return (int(m * (1 << 53)), e - 53, -1 if x < 0 else 1)
+    if nm in ('to_f64', 'to_f32') and not args:
+        return some(x)
+    return NotImplemented
+
+
 def _hashable(k):
     if isinstance(k, Cell):
         k = k.get()
@@ -464,6 +494,12 @@ class Interp:
             if m_:
                 w_, sg_ = _INT_TY[m_.group(1)]
                 return w_ if m_.group(2) == 'BITS' else ((1 << (w_ - 1)) - 1 if sg_ else (1 << w_) - 1) if m_.group(2) == 'MAX' else (-(1 << (w_ - 1)) if sg_ else 0)
+            mf_ = re.match(r'^(?:std|core)::(f32|f64)::consts::([A-Z_0-9]+)$', p)
+            if mf_:
+                import math as _m
+                tbl_ = {'PI': _m.pi, 'TAU': _m.tau, 'E': _m.e, 'SQRT_2': _m.sqrt(2), 'FRAC_1_SQRT_2': 1 / _m.sqrt(2), 'FRAC_PI_2': _m.pi / 2, 'FRAC_PI_4': _m.pi / 4, 'LN_2': _m.log(2)}
+                if mf_.group(2) in tbl_:
+                    return tbl_[mf_.group(2)]
             if self.facts is not None and 'Const' in (r.get('dk') or '') and 'Ctor' not in (r.get('dk') or '') and p in self.facts.get('consts', {}):
                 return self.ev(self.facts['consts'][p]['hir'], {})
             if ('Fn' in (r.get('dk') or '')) and 'Ctor' not in (r.get('dk') or '') and self._inlinable(p):
@@ -700,6 +736,12 @@ class Interp:
                 return int(v_)
         if c.endswith(('panic_fmt', 'begin_panic', 'panic_display', 'panic_explicit', 'assert_failed', 'panic_nounwind', 'unreachable_display', 'panic_str')) or c in ('core::panicking::panic', 'std::rt::panic_fmt'):
             raise Panics('explicit panic / failed assertion')
+        mfc_ = re.search(r'<impl f(?:32|64)>::([a-z0-9_]+)$', c)
+        if mfc_ and e['args']:
+            a_ = [self.ev(x, env) for x in e['args']]
+            r_ = _float_method(mfc_.group(1), a_[0], a_[1:])
+            if r_ is not NotImplemented:
+                return r_
         if c.endswith('mem::size_of') and not e['args']:
             m_ = re.search(r'size_of::<([a-z0-9]+)>', (e['fun'].get('ty') or ''))
             if m_ and int_ty(m_.group(1)):
@@ -1176,6 +1218,10 @@ class Interp:
                 return list(recv)
             if nm == 'to_ascii_uppercase':
                 return recv.upper()
+        if isinstance(recv, float):
+            r_ = _float_method(nm, recv, [self.ev(x, env) for x in args])
+            if r_ is not NotImplemented:
+                return r_
         if isinstance(recv, int) and not isinstance(recv, bool):
             ty_ = int_ty(hir.strip(e['recv']).get('ty') or e['recv'].get('ty'))
             if ty_ is not None:
